@@ -2093,10 +2093,12 @@ static int32_t parse_XTA(ParserBuilder *aParserBuilder,
     // Parse string
     int res = 0;
 
+    ch->parse_begin();
     if (utap_parse())
     {
         res = -1;
     }
+    ch->parse_end(res == 0);
 
     ch = NULL;
     return res;
